@@ -102,7 +102,7 @@ def crash_info(p, progress):
     return (m.group(0) if m else None), pr, txt
 
 
-def replay(chk, sd, ov, behs, root, name, race=False):
+def replay(chk, sd, ov, behs, root, name, race=True):
     bf = vf.write_ndjson(os.path.join(sd, "beh-%s.ndjson" % name), behs)
     out = os.path.join(sd, "replay-%s.json" % name)
     env = {"VERIF_IN": bf, "VERIF_OUT": out, "VERIF_SVCROOT": root, "VERIF_EGOPATH": vf.REPO, "VERIF_PROGRESS": out + ".progress"}
@@ -119,7 +119,8 @@ def replay(chk, sd, ov, behs, root, name, race=False):
             return None
         raise vf.NoVerdict("replay harness produced no result (rc=%d)\n%s\n%s" % (p.returncode, p.stdout[-3000:], p.stderr[-3000:]))
     if race and "DATA RACE" in p.stdout + p.stderr:
-        chk.violation("race/replay", "race detector report while replaying gated service requests", (p.stdout + p.stderr)[-6000:])
+        for k, txt in race_reports(p.stdout + p.stderr).items():
+            chk.violation(k, "race detector report while replaying gated service requests", txt)
     res = json.load(open(out))
     if res["behaviours"] != len(behs) and not res.get("mismatches"):
         raise vf.NoVerdict("replay stopped early: %s of %s" % (res["behaviours"], len(behs)))
@@ -130,6 +131,17 @@ def mismatch_key(m):
     path = re.sub(r"\.r\d+", ".r*", m["path"])
     path = re.sub(r"\[\d+\]", "[*]", path)
     return "replay/%s/%s" % (m["act"], path)
+
+
+def race_reports(out):
+    """one (key, text) per distinct pair of racing functions in a race-detector output"""
+    reps = {}
+    for blk in out.split("WARNING: DATA RACE")[1:]:
+        blk = blk.split("==================")[0]
+        tops = re.findall(r"^(?:Write|Read|Previous write|Previous read|Atomic \w+|Previous atomic \w+) at [^\n]*\n\s+(\S+?)\(\)\n", blk, re.M)
+        fn = sorted(set(re.sub(r"^.*/internal/", "", t) for t in tops)) or ["?"]
+        reps.setdefault("race/" + "|".join(fn), blk[:4000])
+    return reps
 
 
 def trace_key(rt, info):
@@ -157,22 +169,21 @@ def run():
         "one endpoint per behaviour; requests reach ServiceHandler through the real router.ServeHTTP in-process (httptest recorder), users are bearer tokens of the real token package",
         "ego.compiler.import = true (the default of a server profile): compiling a service auto-imports the packages into the compiling request's table",
         "a replayed step is the code between two verifGate points; interleavings inside a step (bytecode level) are only sampled (yield hook, GOMAXPROCS sweep, -race)",
-        "a request the specification says is parked on the first-use lock of its route is watched for 150 ms only (a lock that does not block can be missed, never falsely reported)",
+        "a request the specification says is parked on the first-use lock of its route is watched for 100 ms only (a lock that does not block can be missed, never falsely reported)",
         "trace validation does not model the first-use lock of the route (its critical sections are not logged); the gated replay does"]
     with vf.scratch() as sd:
         root = os.path.join(sd, "svcroot")
         write_services(root, SHAPES)
         ov = vf.make_overlay(sd, HARNESS)
         W = 4
-        sims = [(["r3"], SHAPES[0], 400 if thorough else 40, 2), ([], SHAPES[1], 250 if thorough else 25, 1),
-                (["r2"], SHAPES[2], 250 if thorough else 25, 1)]
+        sims = [(["r3"], SHAPES, 700 if thorough else 70, 2), ([], [SHAPES[1]], 300 if thorough else 30, 1)]
         with ThreadPoolExecutor(max_workers=12) as ex:
             f_mc = ex.submit(vf.tlc, SPEC, SPEC, SPEC + ("_MC.cfg" if thorough else "_MCq.cfg"), sd, workers=W, timeout=4000)
             f_mc2 = ex.submit(vf.tlc, SPEC, SPEC, SPEC + "_MC2.cfg", sd, workers=W, timeout=4000) if thorough else None
             f_neg = {d: ex.submit(vf.tlc, SPEC, SPEC, SPEC + "_MC_%s.cfg" % d, sd, workers=2, timeout=2000)
                      for d in ("parts", "unsaved", "unlock")}
-            f_gen = [ex.submit(behaviours, chk, sd, gen_cfg(["r1", "r2", "r3"], bad, [shape], ev), "gen simulate %d" % i,
-                               "num=%d" % num, vf.SEED * 10 + i) for i, (bad, shape, num, ev) in enumerate(sims)]
+            f_gen = [ex.submit(behaviours, chk, sd, gen_cfg(["r1", "r2", "r3"], bad, shapes, ev), "gen simulate %d" % i,
+                               "num=%d" % num, vf.SEED * 10 + i) for i, (bad, shapes, num, ev) in enumerate(sims)]
             f_ex = ex.submit(behaviours, chk, sd, gen_cfg(["r1", "r2"], ["r2"], [SHAPES[1]], 1), "gen exhaustive 2 requests") if thorough else None
             # T driver starts right away (it needs nothing from TLC)
             f_conc = ex.submit(concurrent, ov, sd, root, 48 if thorough else 8, 48 if thorough else 16)
@@ -223,7 +234,8 @@ def run():
         out = p.stdout + p.stderr
         fatal = re.search(r"fatal error: [^\n]*", out)
         if "DATA RACE" in out:
-            chk.violation("race/services", "race detector report in concurrent service requests", out[-8000:])
+            for k, txt in race_reports(out).items():
+                chk.violation(k, "race detector report in concurrent service requests", txt)
         elif fatal:
             chk.violation("crash/concurrent", "the server process died during a concurrent batch: " + fatal.group(0), out[-6000:])
         elif p.returncode != 0 or not os.path.exists(tr):
